@@ -338,12 +338,12 @@ func Eq(a, b *Term) *Term {
 			return Not(a)
 		}
 	}
-	// (ite c k1 k2) == k  with constants
-	if b.IsConst() && a.Op == "ite" && a.Args[1].IsConst() && a.Args[2].IsConst() {
-		return Ite(a.Args[0], BoolT(a.Args[1].C == b.C), BoolT(a.Args[2].C == b.C))
+	// (ite tree of constants) == k
+	if b.IsConst() && isConstTree(a) {
+		return mapTree(a, func(l *Term) *Term { return BoolT(l.C == b.C) })
 	}
-	if a.IsConst() && b.Op == "ite" && b.Args[1].IsConst() && b.Args[2].IsConst() {
-		return Ite(b.Args[0], BoolT(b.Args[1].C == a.C), BoolT(b.Args[2].C == a.C))
+	if a.IsConst() && isConstTree(b) {
+		return mapTree(b, func(l *Term) *Term { return BoolT(l.C == a.C) })
 	}
 	if a.key() != "" && a.key() == b.key() {
 		return TrueT
@@ -351,9 +351,48 @@ func Eq(a, b *Term) *Term {
 	return &Term{Op: "=", S: BoolSort, Args: []*Term{a, b}}
 }
 
+// constTree reports whether t is an ite tree whose leaves are all constants
+// (at most limit nodes).
+func constTree(t *Term, limit *int) bool {
+	*limit--
+	if *limit < 0 {
+		return false
+	}
+	if t.IsConst() {
+		return true
+	}
+	if t.Op == "ite" {
+		return constTree(t.Args[1], limit) && constTree(t.Args[2], limit)
+	}
+	return false
+}
+
+// mapTree applies f to the constant leaves of an ite tree.
+func mapTree(t *Term, f func(*Term) *Term) *Term {
+	if t.IsConst() {
+		return f(t)
+	}
+	return Ite(t.Args[0], mapTree(t.Args[1], f), mapTree(t.Args[2], f))
+}
+
+func isConstTree(t *Term) bool {
+	if t.Op != "ite" {
+		return false
+	}
+	n := 200
+	return constTree(t, &n)
+}
+
 func Bin(op string, a, b *Term) *Term {
 	if a.S != b.S {
 		panic(fmt.Sprintf("Bin %s sort mismatch %v %v", op, a.S, b.S))
+	}
+	// arithmetic on a small ite tree of constants is pushed into the leaves
+	if b.IsConst() && isConstTree(a) {
+		return mapTree(a, func(l *Term) *Term { return Bin(op, l, b) })
+	}
+	if a.IsConst() && isConstTree(b) {
+		return mapTree(b, func(l *Term) *Term { return Bin(op, a, l) })
 	}
 	s := a.S
 	switch op {
@@ -414,6 +453,9 @@ func Extract(hi, lo int, a *Term) *Term {
 	if lo == 0 && hi == int(a.S)-1 {
 		return a
 	}
+	if isConstTree(a) {
+		return mapTree(a, func(l *Term) *Term { return Extract(hi, lo, l) })
+	}
 	if a.Op == "zero_extend" && hi < int(a.Args[0].S) {
 		return Extract(hi, lo, a.Args[0])
 	}
@@ -428,6 +470,9 @@ func ZeroExt(to Sort, a *Term) *Term {
 	if to == a.S {
 		return a
 	}
+	if isConstTree(a) {
+		return mapTree(a, func(l *Term) *Term { return ZeroExt(to, l) })
+	}
 	t := &Term{Op: "zero_extend", S: to, Args: []*Term{a}, I: int(to - a.S)}
 	return fold(t)
 }
@@ -435,6 +480,9 @@ func ZeroExt(to Sort, a *Term) *Term {
 func SignExt(to Sort, a *Term) *Term {
 	if to == a.S {
 		return a
+	}
+	if isConstTree(a) {
+		return mapTree(a, func(l *Term) *Term { return SignExt(to, l) })
 	}
 	t := &Term{Op: "sign_extend", S: to, Args: []*Term{a}, I: int(to - a.S)}
 	return fold(t)
